@@ -42,3 +42,7 @@ def run(ctx):
     # no primitive arithmetic at all
     prim = [s for blk in b.blocks for s in blk['s'] if s.get('rv', {}).get('k') == 'bin' and s['rv']['op'].replace('WithOverflow', '') in ('Add', 'Sub', 'Mul', 'Shl', 'Div', 'Rem')]
     ctx.ob('R34.2', b.n, 'no primitive integer arithmetic', not prim, f'{len(prim)} primitive arithmetic rvalues', where(b, b.line))
+
+
+# sensitivity pack (thorough tier): each seeded edit must be reported by the named rule instance
+MUTANTS = [{'name': 'decimal-scale-unchecked-again', 'file': 'src/decimal.rs', 'old': '        value: 10u128\n          .checked_pow(u32::from(scale))\n          .and_then(|multiplier| integer.checked_mul(multiplier))\n          .and_then(|integer| integer.checked_add(decimal))\n          .context("decimal out of range")?,', 'new': '        value: integer * 10u128.pow(u32::from(scale)) + decimal,', 'expect': ('R34.1', 'Decimal as std::str::FromStr', 'arith:')}]
